@@ -360,13 +360,17 @@ func run(t *testing.T, tape *simrt.Tape) *hx.Outcome {
 				}
 				p := &pull{id: len(pulls) + 1, ref: im.ref, user: fmt.Sprintf("user%d", len(pulls)+1), secret: fmt.Sprintf("S%d-%x", len(pulls)+1, simrt.Mix(tape.Seed, uint64(len(pulls)))&0xffffffffff)}
 				auth := &runtime.AuthConfig{}
-				switch dr(3) {
+				switch dr(5) {
 				case 0:
 					auth.Username, auth.Password, p.form = p.user, p.secret, "user/password"
 				case 1:
 					auth.IdentityToken, p.form = p.secret, "identity-token"
-				default:
+				case 2:
 					auth.Auth, p.form = base64.StdEncoding.EncodeToString([]byte(p.user+":"+p.secret)), "base64-auth"
+				case 3:
+					p.form = "empty-auth" // an AuthConfig without credentials
+				default:
+					p.form = "anonymous" // no AuthConfig at all (a pod without pull secret): it still is the most recent pull of the reference
 				}
 				switch dr(4) {
 				case 0: // no server address
@@ -389,6 +393,9 @@ func run(t *testing.T, tape *simrt.Tape) *hx.Outcome {
 				p.seq = s.Event("cri PullImage %s pull#%d form=%s server=%q", im.ref, p.id, p.form, auth.ServerAddress)
 				changes = append(changes, change{seq: p.seq, ref: im.ref, pull: p})
 				ci := len(changes) - 1
+				if p.form == "anonymous" {
+					auth = nil
+				}
 				_, err := server.PullImage(ctx, &runtime.PullImageRequest{Image: &runtime.ImageSpec{Image: im.name}, Auth: auth})
 				if err != nil && strings.Contains(err.Error(), "not initialized") {
 					changes[ci].ref, changes[ci].pull = "", nil // refused before anything was recorded
